@@ -220,6 +220,12 @@ SHAPES = {
     "ultrasonic-in-helper": "mon = SerialMonitor(9600)\nu = Ultrasonic(7, 8)\ndef near():\n    d = u.measure_distance()\n    return d < 10\nwhile True:\n    r = near()\n    mon.write(r)\n    sleep(5)\n",
     "button-callback": "mon = SerialMonitor(9600)\ndef hit():\n    mon.write('click')\nb = Button(4, on_click=hit)\nwhile True:\n    sleep(5)\n",
     "helper-mutual-calls": "mon = SerialMonitor(9600)\ndef a1(v):\n    return b1(v) + 1\ndef b1(v):\n    return v * 3\nr = a1(2)\nmon.write(r)\n",
+    "queries-stored-in-variables": ("mon = SerialMonitor(9600)\nm = DCMotor(2, 3, 5)\nm.set_speed(0.5)\nv = m.get_speed()\nw = m.get_applied_speed()\ni = m.is_inverted()\nmode = m.get_mode()\n"
+                                    "mon.write(v)\nmon.write(w)\nmon.write(i)\nmon.write(mode)\nbz = Buzzer(8)\nf = bz.get_frequency()\ng = bz.get_last_frequency()\nst = bz.get_state()\nmon.write(f)\n"
+                                    "s = Servo(9)\na = s.read()\nu = s.read_us()\nmon.write(a + u)\nl = Led(13)\nb = l.get_brightness()\nt = l.get_state()\nmon.write(b)\n"),
+    "host-only-serial-read-as-value": "mon = SerialMonitor(9600)\nx = mon.read('host')\ny = mon.read(emit='host')\nz = mon.read()\nmon.read('host')\nmon.write(x + y + z)\n",
+    "animate-inside-helper": "lcd = LCD(i2c_addr=0x27)\ndef show():\n    lcd.animate('scroll', 0, 'hello', speed_ms=100, loop=True)\nshow()\nwhile True:\n    sleep(5)\n",
+    "for-variable-read-after-the-loop": "mon = SerialMonitor(9600)\nt = 0\nfor i in range(3):\n    t = t + i\nmon.write(i)\n",
     "empty-script": "",
     "only-imports-and-sleep": "while True:\n    sleep(100)\n",
     "string-functions": "mon = SerialMonitor(9600)\ndef tag(s, n):\n    return s + str(n)\nt = tag('k', 3)\nmon.write(t)\nmon.write(len(t))\n",
